@@ -274,6 +274,7 @@ struct MergePatchScn : Scenario {
 // ---- JSON Patch: state preservation is part of C19 ----
 template <class Json> struct PatchScn : Scenario {
     Json doc, patch; MVal pre; std::string patch_before; bool use_ec = false; bool diff = false;
+    bool returned = false;   // apply_patch itself returned (a later failure belongs to the harness's own dump)
     static MVal to_m(const Json& j) { return MVal::parse(text(j)); }
     void setup(const MVal& p) override {
         doc = Json::parse(sim::plan_text(p, "doc")); patch = Json::parse(sim::plan_text(p, "patch")); pre = to_m(doc); patch_before = text(patch);
@@ -281,14 +282,16 @@ template <class Json> struct PatchScn : Scenario {
     }
     std::string run() override {
         if (diff) { Json d = jsonpatch::from_diff(doc, patch); return text(d); }
-        if (use_ec) { std::error_code ec; jsonpatch::apply_patch(doc, patch, ec); return text(doc) + "|" + (ec ? ec.message() : "ok"); }
-        try { jsonpatch::apply_patch(doc, patch); } catch (const jsonpatch::jsonpatch_error& e) { return text(doc) + "|" + e.code().message(); }
+        returned = false;
+        if (use_ec) { std::error_code ec; jsonpatch::apply_patch(doc, patch, ec); returned = true; return text(doc) + "|" + (ec ? ec.message() : "ok"); }
+        try { jsonpatch::apply_patch(doc, patch); } catch (const jsonpatch::jsonpatch_error& e) { returned = true; return text(doc) + "|" + e.code().message(); }
+        returned = true;
         return text(doc) + "|ok";
     }
     std::string check(bool threw) override {
         if (text(patch) != patch_before) return "const patch changed";
         std::string e = validate(doc, is_sorted_policy<Json>::value); if (!e.empty()) return "target invalid: " + e;
-        if (threw && !diff) {
+        if (threw && !diff && !returned) {
             MVal now = to_m(doc);
             if (!now.equals(pre)) return "apply_patch threw but target differs from its pre-call state: now " + now.dump() + " before " + pre.dump();
         }
